@@ -87,6 +87,12 @@ def run_case(case, ctx):
                 return None
         dst = Dst('dst')
         objs = {'dst': dst}
+        if case.get('vp_first') and structure in ('explicit', 'byname', 'chain'):
+            # another main-task block, created BEFORE the Repeat, delivers its first output
+            # event at the very first step of its task - before the Repeat's own task has run
+            edzed.ValuePoll('vp', func=lambda: 'polled', interval=10 ** 6,
+                            on_output=edzed.Event('r1', DYN('put')))
+            ctx.count('event_before_first_step_of_main_task')
         if structure == 'explicit':
             r = edzed.Repeat('r1', dest=dst, etype='put', interval=interval, count=count)
             repeats.append(r)
@@ -444,6 +450,8 @@ def gen(ctx):
             case['strip_source'] = True
         if structure in ('explicit', 'byname', 'chain') and rng.random() < 0.3:
             case['cleanup_event'] = True
+        if structure in ('explicit', 'byname', 'chain') and rng.random() < 0.25:
+            case['vp_first'] = True
         yield case, False
 
 
